@@ -47,6 +47,27 @@ def check(ctx):
             return [("", ps[0])]
         return [(" [" + ", ".join(("" if c else "not ") + d[:60] for _k, c, d in p_.decisions) + "]", p_) for p_ in ps]
 
+    # the data the objective works on: its parameters after `params` that have no default - or, when one of them is a
+    # record (a NamedTuple handed over as one argument), the record's fields.  Which of them plays which part (days on
+    # production, observed cumulative production, PVT table, frac-face history) is read off what the objective does
+    # with it; the fit is then checked to hand each part the documented value
+    odata = [n_ for n_ in f.params[1:] if n_ not in f.defaults()]
+
+    def data_sym(term):
+        at_ = it.single_atom(term)
+        if at_ is not None and at_[0] == "sym" and any(at_[1] == n_ or at_[1].startswith(n_ + ".") for n_ in odata):
+            return at_[1]
+        return None
+
+    roles = {}
+
+    def role(name, term):
+        s_ = data_sym(term)
+        if s_ is None or (name in roles and roles[name] != s_) or any(r_ != name and v_ == s_ for r_, v_ in roles.items()):
+            return False
+        roles[name] = s_
+        return True
+
     for otag, p in _tags(paths):
         # constructions and method calls made by the objective, directly or through private helpers it calls (inlined)
         evs = [e for e in p.events if e.kind == "construct" or (e.kind in ("int_call", "method_call") and e.data.get("recv") is not None)]
@@ -68,7 +89,7 @@ def check(ctx):
             ctx.check(order == sorted(order) and same and not others, "C18-a", q + ":typestate order" + otag, f.where(), "construct -> simulate -> recovery_factor on the same reservoir object, nothing in between", signature="call order")
             a = cons_fp[0].data["args"]
             ctx.check(
-                it.to_nf(a["pvt_props"]) == nf.sym("pvt_table") and it.to_nf(a["p_i"]) == pval("p_initial"), "C18-a", q + ":FlowProperties arguments" + otag, f"{f.file}:{cons_fp[0].line}",
+                role("pvt_table", it.to_nf(a["pvt_props"])) and it.to_nf(a["p_i"]) == pval("p_initial"), "C18-a", q + ":FlowProperties arguments" + otag, f"{f.file}:{cons_fp[0].line}",
                 "the fluid wrapper is built from the caller's PVT table at the trial initial pressure", signature="FlowProperties args", got={k: nf.show(it.to_nf(v), 80) for k, v in a.items()},
             )
             a = cons_r[0].data["args"]
@@ -76,7 +97,7 @@ def check(ctx):
             okr = isinstance(nx, Num) and nf.as_int(nx.nf) is not None and nf.as_int(nx.nf) == 80 and it.to_nf(a.get("pressure_initial")) == pval("p_initial") and a.get("fluid") is cons_fp[0].data["inst"]
             ctx.check(okr, "C18-a", q + ":reservoir arguments" + otag, f"{f.file}:{cons_r[0].line}", "the reservoir has the documented 80 nodes (whatever the environment says), the trial initial pressure and the fluid wrapper just built", signature="reservoir args", got={k: str(v)[:60] for k, v in a.items()})
             a = sims[0].data["args"]
-            oks = it.to_nf(a["time"]) == nf.div(nf.sym("days"), pval("tau")) and it.to_nf(a["pressure_fracface"]) == nf.sym("pressure_fracface")
+            oks = role("days", nf.mul(it.to_nf(a["time"]), pval("tau"))) and role("pressure_fracface", it.to_nf(a["pressure_fracface"]))
             ctx.check(oks, "C18-a", q + ":simulate arguments" + otag, f"{f.file}:{sims[0].line}", "the simulation runs over days / tau with the caller's frac-face pressure history", signature="simulate args", got={k: nf.show(it.to_nf(v), 80) for k, v in a.items()})
             a = recs[0].data["args"]
             okd = str(a.get("density")) == "Bool(False)" and type(a.get("time")).__name__ == "NoneV"
@@ -85,7 +106,9 @@ def check(ctx):
             val = it.to_nf(p.value)
             rfa = [x for x in nf.atoms(val) if x[0] == "fn" and x[1] == recs[0].data["callee"]]
             if len(set(rfa)) == 1:
-                ctx.identity("C18-a", q + ":objective" + otag, f.where(), "objective == params['M'] * recovery_factor - production", val, nf.sub(nf.mul(pval("M"), nf.atom_poly(rfa[0])), nf.sym("production")))
+                model_ = nf.mul(pval("M"), nf.atom_poly(rfa[0]))
+                observed = nf.sym(roles["production"]) if "production" in roles else (nf.sub(model_, val) if role("production", nf.sub(model_, val)) else nf.sym("production"))
+                ctx.identity("C18-a", q + ":objective" + otag, f.where(), "objective == params['M'] * recovery_factor - production", val, nf.sub(model_, observed))
             else:
                 ctx.bad("C18-a", q + ":objective" + otag, f.where(), "objective == params['M'] * recovery_factor - production", signature="objective", value=nf.show(val, 200))
     # ---- C18-b keys
@@ -146,10 +169,17 @@ def check(ctx):
                 binding[k] = v
         elif fk is not None and type(fk).__name__ != "NoneV":
             extra.append("fcn_kws is not a literal dict")
-        if set(binding) != set(names) or extra:
-            ctx.bad("C18-c", qf + ":fcn_args " + tag, where, "the minimiser hands the objective exactly its four extra arguments (days, production, pvt_table, pressure_fracface)", signature="fcn_args arity", bound=sorted(binding), problems=extra)
+        flat = {}
+        for k_, v_ in binding.items():
+            flat[k_] = v_
+            if isinstance(v_, TupV) and v_.names:
+                for fld_, x_ in zip(v_.names, v_.items):
+                    flat[f"{k_}.{fld_}"] = x_
+        need = ("days", "production", "pvt_table", "pressure_fracface")
+        if set(binding) != set(names) or extra or any(roles.get(r_) not in flat for r_ in need):
+            ctx.bad("C18-c", qf + ":fcn_args " + tag, where, "the minimiser hands the objective exactly its four extra arguments (days, production, pvt_table, pressure_fracface)", signature="fcn_args arity", bound=sorted(binding), problems=extra, roles=dict(roles))
             continue
-        days, prod, tbl, pf = (binding[n_] for n_ in ("days", "production", "pvt_table", "pressure_fracface"))
+        days, prod, tbl, pf = (flat[roles[r_]] for r_ in need)
         # frame the data are taken from
         prod_nf = it2.to_nf(prod)
         pf_nf = it2.to_nf(pf)
